@@ -293,3 +293,62 @@ Definition no_positionals (d : ld) : bool :=
   forallb (fun it => match it with IPos _ => false | _ => true end) (ld_items d) &&
   match ld_tail d with None => true | Some _ => false end.
 Definition no_names (d : ld) : bool := match ld_names d with [] => true | _ => false end.
+
+(* ---------- wire: the harness sends the line description it generated; the model answers with fmt_ok, wf_line, the
+   rendered tokens and the denoted assignment, next to the ordinary parse of the tokens ---------- *)
+Definition find_opt (f : fmt) (long : str) : option opt := aget str_eqb long (get_options_all f).
+Definition dec_glast (s : sexp) : option glast :=
+  match s with
+  | L [A 0%Z; t] => option_map GGlued (dStr t)
+  | L [A 1%Z; t] => option_map GSep (dStr t)
+  | L [A 2%Z] => Some GBare
+  | _ => None
+  end.
+Definition dec_item (f : fmt) (s : sexp) : option item :=
+  let opt_of n := match dStr n with Some n => find_opt f n | None => None end in
+  match s with
+  | L [A 0%Z; n; lg] => match opt_of n, dB lg with Some o, Some lg => Some (IFlag o lg) | _, _ => None end
+  | L [A 1%Z; n; A fm; t] =>
+    match opt_of n, dStr t with
+    | Some o, Some t => Some (IVal o (match fm with 0%Z => LongEq | 1%Z => LongSep | 2%Z => ShortGlued | _ => ShortSep end) t)
+    | _, _ => None end
+  | L [A 2%Z; n; lg] => match opt_of n, dB lg with Some o, Some lg => Some (IBare o lg) | _, _ => None end
+  | L [A 3%Z; L ns; last] =>
+    match dAll opt_of ns with
+    | Some fl =>
+      match last with
+      | L [] => Some (IGroup fl None)
+      | L [n; g] => match opt_of n, dec_glast g with Some o, Some g => Some (IGroup fl (Some (o, g))) | _, _ => None end
+      | _ => None
+      end
+    | None => None end
+  | L [A 4%Z; t] => option_map IPos (dStr t)
+  | _ => None
+  end.
+Definition dec_ld (f : fmt) (s : sexp) : option ld :=
+  match s with
+  | L [names; L items; tail] =>
+    match dList dStr names, dAll (dec_item f) items, dOpt (dList dStr) tail with
+    | Some names, Some items, Some tail => Some {| ld_names := names; ld_items := items; ld_tail := tail |}
+    | _, _, _ => None end
+  | _ => None
+  end.
+(* (levels lenient tokens extra [ld]?) *)
+Definition run_C01S (s : sexp) : sexp :=
+  match s with
+  | L [levels; len; toks; extra; L lds] =>
+    match dList (dList dec_element) levels, dList dStr extra with
+    | Some lv, Some ex =>
+      match build_bases lv None, lds with
+      | Ok (Some f), [d] =>
+        match dec_ld f d with
+        | Some d => L [run_parse (L [levels; len; toks; extra]);
+                       L [L [sB (fmt_ok f); sB (wf_line f d); sList sStr (render d); enc_args f ex (denote f d)]]]
+        | None => sBad
+        end
+      | _, _ => L [run_parse (L [levels; len; toks; extra]); L []]
+      end
+    | _, _ => sBad
+    end
+  | _ => sBad
+  end.
